@@ -19,7 +19,7 @@ child"), so that the same definitions serve
 prints for that position (case label, helper-switch labels, member path).
 
 A node of a function body is addressed by a `Path` (list of (slot, index) steps from the body).
-`markedAt tab self bound op body p` mirrors the propagation of `op` along `p` and the retagging
+`markedAt tab self seen pend op body p` mirrors the propagation of `op` along `p` and the retagging
 test at the end: it says whether tailrec.c retags the node at `p`.
 -/
 import NeverModel.Model.Src
@@ -128,7 +128,7 @@ def refTab : Slot → Pass
 /-- the symbol table a visit hands down (`inherit` = the one it received).  A block hands down ITS table,
 which holds every `let`/`var`/function item of the block (whatever their order); a list comprehension its
 own (the generator variables).  `match` arms and `if let` branches receive the ENCLOSING table: the names a
-guard binds are invisible to the marker. -/
+guard binds are invisible to the marker unless the arm is a block (`hiddenBinders`, `opensTable`). -/
 def refScope : Slot → String
   | .seqLastExpr | .seqInitExpr | .seqLastBind | .seqInitBind => "seq_value.stab"
   | .compGen | .compFilter | .compBody => "listcomp_value.stab"
@@ -319,13 +319,33 @@ def kid (e : Expr) (s : Slot) (i : Nat) : Option Expr :=
     | _ => none
   | .lit _ | .var _ | .lam _ | .enumVal _ _ => none
 
-/-- the names the table handed to this child adds to the ones tailrec.c's lookup sees (`refScope`) -/
+/-- the visit of this child hands down a table of the construct's own (`refScope s ≠ "inherit"`): a block's, a list
+comprehension's.  tailrec.c's lookup then starts in THAT table and follows its parent links, which are the true lexical
+chain: everything bound around the block is visible. -/
+def opensTable : Slot → Bool
+  | .seqLastExpr | .seqInitExpr | .seqLastBind | .seqInitBind | .compGen | .compFilter | .compBody => true
+  | _ => false
+
+/-- the names the table handed to this child holds: EVERY `let`/`var`/function item of the block (whatever their order),
+the generator variables of a comprehension -/
 def cBinders (e : Expr) (s : Slot) : List Name :=
   match e, s with
   | .seq items, .seqLastExpr | .seq items, .seqInitExpr | .seq items, .seqLastBind | .seq items, .seqInitBind =>
     itemBinders items
   | .listcomp _ quals _, .compGen | .listcomp _ quals _, .compFilter | .listcomp _ quals _, .compBody =>
     qualBinders quals
+  | _, _ => []
+
+/-- the names a construct binds for this child in a table of its own that is NOT handed to the visit (`match` arms,
+`if let` branches and `for … in` bodies are visited with the ENCLOSING table): the marker's lookup does not see them — until a
+block below opens its table, whose parent links lead through them -/
+def hiddenBinders (e : Expr) (s : Slot) (i : Nat) : List Name :=
+  match e, s with
+  | .matchE _ gs, .armRecd => match gs[i]? with
+    | some (.recd _ _ binds _) => binds
+    | _ => []
+  | .ifLet (.recd _ _ binds _) _ _, .ifLetThen => binds
+  | .forIn x _ _, .forInBody => [x]
   | _, _ => []
 
 abbrev Path := List (Slot × Nat)
@@ -356,24 +376,28 @@ def isSelfCall (self : Name) (bound : List Name) : Expr → Bool
   | .call (.var x) _ => x == self && self != "" && !(bound.contains x)
   | _ => false
 
-/-- **the marker**: does tailrec.c retag the node at path `p` of `e`, when `e` is visited with flag `op`
-in a function named `self` whose lookup sees `bound` before its own name? -/
-def markedAt (tab : Slot → Pass) (self : Name) : List Name → Bool → Expr → Path → Bool
-  | bound, op, e, [] => op && isSelfCall self bound e
-  | bound, op, e, (s, i) :: p =>
+/-- **the marker**: does tailrec.c retag the node at path `p` of `e`, when `e` is visited with flag `op` in a function named
+`self`?  `seen` = the names the lookup finds before the function's own name (parameters; items of the blocks on the path and
+whatever is bound around those blocks); `pend` = names bound on the path since the last block by constructs that keep them in
+a table of their own — invisible to the lookup until the next block is entered. -/
+def markedAt (tab : Slot → Pass) (self : Name) : List Name → List Name → Bool → Expr → Path → Bool
+  | seen, _, op, e, [] => op && isSelfCall self seen e
+  | seen, pend, op, e, (s, i) :: p =>
     match kid e s i with
     | none => false
-    | some c => markedAt tab self (cBinders e s ++ bound) (flag (tab s) op) c p
+    | some c =>
+      if opensTable s then markedAt tab self (cBinders e s ++ pend ++ seen) [] (flag (tab s) op) c p
+      else markedAt tab self seen (hiddenBinders e s i ++ pend) (flag (tab s) op) c p
 
 /-- func_tailrec_native: the body -/
 def markedInBody (tab : Slot → Pass) (fn : Func) (p : Path) : Bool :=
-  markedAt tab fn.name (paramBinders fn.params) (flag (tab .funcBody) false) fn.body p
+  markedAt tab fn.name (paramBinders fn.params) [] (flag (tab .funcBody) false) fn.body p
 
 /-- func_tailrec_native: the `j`-th catch clause -/
 def markedInCatch (tab : Slot → Pass) (fn : Func) (j : Nat) (p : Path) : Bool :=
   match fn.catches[j]? with
   | some c =>
-    markedAt tab fn.name (paramBinders fn.params)
+    markedAt tab fn.name (paramBinders fn.params) []
       (flag (tab (if c.exc.isSome then .catchOne else .catchAll)) false) c.body p
   | none => false
 
